@@ -29,7 +29,8 @@ INFO = {
                        "zero-size auxiliary buffer", "checksum callbacks that are not chunk-compositional"],
     "stubs": ["medium with power-loss budget and single transfer fault (harness/C10/c10_common.h)",
               "abstract / 32-bit-sum checksum callbacks (see C10)", "memcpy/memset byte loops"],
-    "assumptions": ["checksum on the medium is compared in host (little-endian) representation",
+    "assumptions": ["the PersistentStorage object holds arbitrary stale octets before persistent_init (symbolic input)",
+                    "checksum on the medium is compared in host (little-endian) representation",
                     "a write call persists its octets in ascending address order (tearing = prefix)",
                     "the interrupted system performs no further persistent writes",
                     "region does not wrap 2^32"],
@@ -47,6 +48,7 @@ def _unwind(n):
         "a_match": n + 2, "c10_current": n + 2, "c10_same": n + 2,
         "c10_get_data": n + 2, "c10_put_data": n + 2, "c10_data_is": n + 2, "c10_outside_same": msize + 2,
         "c10_medium_same": msize + 2, "c10_snapshot": msize + 2, "c10_begin": msize + 2,
+        "c10_set_stale": 200, "c10_instance": 200,
         "scenario": msize + 2, "harness": max(6, n + 3),
     }
 
